@@ -67,7 +67,8 @@ def install(ctx, repo, probes):
               "shift/utc", "shift/negative-offset", "shift/multi-offset",
               "shift/nominal-offset", "shift/ref-env", "shift/ref-option",
               "shift/print-format", "shift/parse-format", "diff/plain", "diff/offsets",
-              "diff/as-total", "diff/negative", "rec/forward", "rec/reverse",
+              "diff/as-total", "diff/negative", "diff/zero", "diff/zero-as-total",
+              "diff/same-nominal-offsets-both-sides", "total/zero", "rec/forward", "rec/reverse",
               "total/duration", "malformed/exit", "child/ok",
               "child/malformed"):
         ctx.target(k)
@@ -468,10 +469,22 @@ def make_diff(rng, mode):
         p1 = in_local(mode, p1, lm)
     if n2["zform"] == "none":
         p2 = in_local(mode, p2, lm)
-    o1 = [spell_offset(rng, n1, nominal_ok=False)
+    same_point = rng.random() < 0.12
+    if same_point:
+        # the same instant twice: a zero difference (prints P0Y / 0.0)
+        t2, p2, n2 = t1, dict(p1), n1
+    nominal_ok = p1.get("sod") != 86400 and p2.get("sod") != 86400 and \
+        rng.random() < 0.4
+    o1 = [spell_offset(rng, n1, nominal_ok=nominal_ok)
           for _ in range(rng.choice((0, 0, 1)))]
-    o2 = [spell_offset(rng, n2, nominal_ok=False)
+    o2 = [spell_offset(rng, n2, nominal_ok=nominal_ok)
           for _ in range(rng.choice((0, 0, 1)))]
+    if rng.random() < 0.3:
+        # the same list of offsets on both sides (each side is still
+        # shifted on its own: a month is not the same length everywhere)
+        if not o1:
+            o1 = [spell_offset(rng, n1, nominal_ok=nominal_ok)]
+        o2 = list(o1)
     argv = [t1, t2] + offset_args(rng, [o[0] for o in o1]) + \
         offset_args(rng, [o[0] for o in o2], second=True) + \
         ["--calendar", mode]
@@ -480,11 +493,19 @@ def make_diff(rng, mode):
     length = R.pt_instant(mode, b) - R.pt_instant(mode, a)
     classes = ["diff/offsets" if (o1 or o2) else "diff/plain",
                "calendar/" + mode]
+    if o1 and o1 == o2:
+        classes.append("diff/same-offsets-both-sides")
+        if any(o[1][0] or o[1][1] for o in o1):
+            classes.append("diff/same-nominal-offsets-both-sides")
+    if length == 0:
+        classes.append("diff/zero")
     if length < 0:
         classes.append("diff/negative")
     expect = {"duration_seconds": [length.numerator, length.denominator]}
-    if rng.random() < 0.3:
+    if rng.random() < (0.6 if length == 0 else 0.3):
         unit = rng.choice("HMShms")
+        if length == 0:
+            classes.append("diff/zero-as-total")
         argv += [rng.choice(("--as-total", "--as-total=")) + (
             "" if False else "")]
         if argv[-1].endswith("="):
@@ -502,6 +523,15 @@ def make_total(rng):
     d = {k: abs(v) for k, v in d.items() if v}
     if not d:
         d = {"hours": 1}
+    if rng.random() < 0.08:
+        text = rng.choice(("PT0S", "P0D", "P0W", "PT0H0M0S", "P0DT0H"))
+        unit = rng.choice("HMS")
+        return {"op": "run", "argv": ["--as-total=" + unit, text], "env": {},
+                "local": [0, 0],
+                "expect": {"duration_seconds": [0, 1], "total_unit": unit,
+                           "bare_total": True},
+                "classes": ["total/duration", "total/zero"],
+                "nontrivial": True}
     secs = (d.get("weeks", 0) * 7 * 86400 + d.get("days", 0) * 86400 +
             d.get("hours", 0) * 3600 + d.get("minutes", 0) * 60 +
             d.get("seconds", 0))
